@@ -163,7 +163,14 @@ def apply_op(R, g, op, chars):
         cols = list(dict((c.name, c) for c in (g.columnlist[i % nc] for i in op['cols'])).values())
         if any(c.num_nodes not in (3, 4) for c in g.columnlist): return g, None
         if g.num_nodes + 5 * len(cols) + 8 > geo.node_capacity(g.convention): return g, None
-        g.refine(cols, bisect=op.get('bisect', False), chars=chars)
+        kw = {}
+        if op.get('edge'):
+            # bisect_edge_columns: some of the columns just outside the refined region (two of them may be neighbours)
+            cand = geo.transition_candidates(g, cols, op.get('bisect', False))
+            if cand:
+                kw['bisect_edge_columns'] = list(dict((x.name, x) for x in [cand[i % len(cand)] for i in op['edge']]).values())
+                R.label('refine:bisect_edge_columns:%s' % ('1' if len(kw['bisect_edge_columns']) == 1 else '2+'))
+        g.refine(cols, bisect=op.get('bisect', False), chars=chars, **kw)
     elif k == 'split_column':
         c = g.columnlist[op['col'] % nc]
         if c.num_nodes != 4 or g.num_columns + 1 > geo.node_capacity(g.convention): return g, None
@@ -427,6 +434,8 @@ def small_alphabet(ncols, max_subset):
             for b in (False, True):
                 A.append({'op': 'refine', 'cols': list(sub), 'bisect': b})
     A.append({'op': 'refine', 'cols': idx, 'bisect': 'x'})
+    for b in (False, True):
+        A.append({'op': 'refine', 'cols': [0], 'bisect': b, 'edge': [0, 1]}); A.append({'op': 'refine', 'cols': [0], 'bisect': b, 'edge': [0, 1, 2, 3]})
     for c in idx:
         for n in range(4): A.append({'op': 'split_column', 'col': c, 'node': n})
         A.append({'op': 'delete_column', 'col': c})
@@ -467,6 +476,7 @@ def op_strategy():
     few = st.lists(i, min_size=1, max_size=5)
     return st.one_of(
         st.builds(lambda c, b: {'op': 'refine', 'cols': c, 'bisect': b}, few, st.sampled_from([False, False, True, 'x', 'y'])),
+        st.builds(lambda c, b, e: {'op': 'refine', 'cols': c, 'bisect': b, 'edge': e}, few, st.sampled_from([False, False, True, 'x', 'y']), st.lists(st.integers(0, 50), min_size=1, max_size=5)),
         st.builds(lambda c, n: {'op': 'split_column', 'col': c, 'node': n}, i, i),
         st.builds(lambda c, k: {'op': 'rename_column', 'cols': c, 'kind': k}, few, st.sampled_from(['fresh', 'swap', 'cycle'])),
         st.builds(lambda c: {'op': 'delete_column', 'col': c}, i),
